@@ -46,7 +46,7 @@ fn is_err(r: &CommandResult) -> bool {
     matches!(r, CommandResult::Error(_))
 }
 
-const ALPHA: &[&str] = &["a", "b", "c", " ", "é", "ß", "İ", "日", "😀", "e\u{301}", "A", "Z", "\t", "ab", "-", ".", "/", "//", "0", "1", "\u{a0}", "x", "y"];
+const ALPHA: &[&str] = &["a", "b", "c", " ", "é", "ß", "İ", "日", "😀", "e\u{301}", "A", "Z", "\t", "ab", "-", ".", "/", "//", "0", "1", "\u{a0}", "x", "y", "ǅ", "ǈ", "ǲ", "ΐ", "ﬁ"];
 
 fn text(t: &mut Tape, max: usize) -> String {
     let n = t.len(max);
@@ -562,7 +562,23 @@ fn render_e(e: &E, top: bool) -> String {
 fn case_calc(t: &mut Tape, st: &mut Stats) -> Verdict {
     let mut ctx = sdk_context();
     let float = t.flip();
-    let (text, want) = if t.chance(1, 6) {
+    let (text, want) = if t.chance(1, 8) {
+        // large magnitudes: products of powers of two written as decimals (exact in binary floating point), up to 2^120
+        st.class("result-of-large-magnitude");
+        let n = 2 + t.below(2);
+        let mut text = String::new();
+        let mut want = 1f64;
+        for i in 0..n {
+            let e = *t.pick_ref(&[20u32, 31, 32, 33, 40, 52, 53]);
+            let v = (2f64).powi(e as i32) * if t.chance(1, 4) { -1.0 } else { 1.0 };
+            if i > 0 {
+                text.push_str(" * ");
+            }
+            text.push_str(&if v < 0.0 { format!("({:?})", v) } else { format!("{:?}", v) });
+            want *= v;
+        }
+        (text, want)
+    } else if t.chance(1, 6) {
         // exact integer division
         let b = t.range(1, 50) * if t.flip() { 1 } else { -1 };
         let q = t.range(-200, 200);
@@ -696,7 +712,7 @@ fn case_kept(t: &mut Tape, st: &mut Stats) -> Verdict {
 pub fn property() -> Property {
     Property {
         id: "C16",
-        rule: "(substring-grid) EXHAUSTIVE: 12 strings of <= 6 bytes incl. 2-, 3- and 4-byte characters and combining marks x all forms (no index, one index, two indexes) x every index (pair) in [-len-2, len+2] plus non-numeric indexes; in-range requests on character boundaries must return the slice, out-of-domain requests the error result; (strings) random texts over ASCII/multi-byte alphabets with needles drawn as real substrings, longer than the haystack, unrelated or empty: length/indexof/last_indexof/contains/starts_with/ends_with/equals/is_empty/concat/replace/split/trim*/uppercase/lowercase against byte-level naive references, plus the relations substring(s,0,indexof(s,t))+t is a prefix of s, length of a slice, split joined by the separator gives s; (numbers) less_than/greater_than on exactly known decimal values in several spellings incl. pairs differing in the last digit, pairs of tiny magnitude (down to 1e-22, differing by as little as 1e-22) and non-numeric operands; (calc) expression trees over + - * with parentheses, exact integer division and dyadic decimals compared exactly; (range) half-open interval, start>end and non-numeric rejected; (kept-results) 2..5 split / range calls in one script run writing to a pool of two output variables, each result kept under a further variable: at the end of the run every kept array still holds the pieces / interval of its own call. Non-trivial: multi-byte text or non-empty needle / index within the grid; distinct by arguments",
+        rule: "(substring-grid) EXHAUSTIVE: 12 strings of <= 6 bytes incl. 2-, 3- and 4-byte characters and combining marks x all forms (no index, one index, two indexes) x every index (pair) in [-len-2, len+2] plus non-numeric indexes; in-range requests on character boundaries must return the slice, out-of-domain requests the error result; (strings) random texts over ASCII/multi-byte alphabets with needles drawn as real substrings, longer than the haystack, unrelated or empty: length/indexof/last_indexof/contains/starts_with/ends_with/equals/is_empty/concat/replace/split/trim*/uppercase/lowercase against byte-level naive references, plus the relations substring(s,0,indexof(s,t))+t is a prefix of s, length of a slice, split joined by the separator gives s; (numbers) less_than/greater_than on exactly known decimal values in several spellings incl. pairs differing in the last digit, pairs of tiny magnitude (down to 1e-22, differing by as little as 1e-22) and non-numeric operands; (calc) expression trees over + - * with parentheses, exact integer division, dyadic decimals and products of large powers of two (results up to 2^120) compared exactly; (range) half-open interval, start>end and non-numeric rejected; (kept-results) 2..5 split / range calls in one script run writing to a pool of two output variables, each result kept under a further variable: at the end of the run every kept array still holds the pieces / interval of its own call. Non-trivial: multi-byte text or non-empty needle / index within the grid; distinct by arguments",
         assumptions: &[
             "substring with an end index equal to the length (and a start index equal to the length in the one-index form) is left unconstrained",
             "values are free of '$', '%' and backslash; calc expressions avoid inexact division, overflow and mixed int/float division",
@@ -728,7 +744,7 @@ pub fn property() -> Property {
                     Tier::Thorough => Plan::Random { cases: 4_000_000, max_len: 60 },
                 },
                 case: case_calc,
-                min_classes: &[("exact-integer-division", 2000), ("decimal-operands", 5000)],
+                min_classes: &[("exact-integer-division", 2000), ("decimal-operands", 5000), ("result-of-large-magnitude", 3000)],
             },
             Section {
                 name: "kept-results",
